@@ -849,8 +849,7 @@ func (g *genCtx) generate(cf *ContractFile) (string, error) {
 					n := p.Name()
 					if n == "" || n == "_" {
 						n = fmt.Sprintf("cb%d", i)
-					}
-					if known[n] {
+					} else {
 						n = "cb_" + n
 					}
 					l1 = append(l1, nameType{n, g.typeStr(p.Type())})
@@ -987,8 +986,7 @@ func (g *genCtx) generate(cf *ContractFile) (string, error) {
 				n := p.Name()
 				if n == "" || n == "_" {
 					n = fmt.Sprintf("cb%d", i)
-				}
-				if known[n] {
+				} else {
 					n = "cb_" + n
 				}
 				l1 = append(l1, nameType{n, g.typeStr(p.Type())})
